@@ -9,6 +9,7 @@ use super::{
     ProtocolException, TAsyncInputProtocol, TFieldIdentifier, TInputProtocol, TLengthProtocol,
     TListIdentifier, TMapIdentifier, TMessageIdentifier, TMessageType, TOutputProtocol,
     TSetIdentifier, TStructIdentifier, TType, ThriftException, ZERO_COPY_THRESHOLD,
+    checked_container_size,
     error::ProtocolExceptionKind,
     new_protocol_exception,
     rw_ext::{ReadExt, WriteExt, read_exact_to_vec, split_to_checked},
@@ -708,7 +709,8 @@ impl TInputProtocol for TBinaryProtocol<&mut Bytes> {
     fn read_list_begin(&mut self) -> Result<TListIdentifier, ThriftException> {
         let element_type: TType = self.read_byte().and_then(|n| Ok(field_type_from_u8(n)?))?;
         let size = self.read_i32()?;
-        Ok(TListIdentifier::new(element_type, size as usize))
+        let size = checked_container_size(size, Some(self.trans.len()))?;
+        Ok(TListIdentifier::new(element_type, size))
     }
 
     #[inline]
@@ -720,7 +722,8 @@ impl TInputProtocol for TBinaryProtocol<&mut Bytes> {
     fn read_set_begin(&mut self) -> Result<TSetIdentifier, ThriftException> {
         let element_type: TType = self.read_byte().and_then(|n| Ok(field_type_from_u8(n)?))?;
         let size = self.read_i32()?;
-        Ok(TSetIdentifier::new(element_type, size as usize))
+        let size = checked_container_size(size, Some(self.trans.len()))?;
+        Ok(TSetIdentifier::new(element_type, size))
     }
 
     #[inline]
@@ -733,7 +736,8 @@ impl TInputProtocol for TBinaryProtocol<&mut Bytes> {
         let key_type: TType = self.read_byte().and_then(|n| Ok(field_type_from_u8(n)?))?;
         let value_type: TType = self.read_byte().and_then(|n| Ok(field_type_from_u8(n)?))?;
         let size = self.read_i32()?;
-        Ok(TMapIdentifier::new(key_type, value_type, size as usize))
+        let size = checked_container_size(size, Some(self.trans.len()))?;
+        Ok(TMapIdentifier::new(key_type, value_type, size))
     }
 
     #[inline]
@@ -927,7 +931,8 @@ where
             .await
             .and_then(|n| Ok(field_type_from_u8(n)?))?;
         let size = self.read_i32().await?;
-        Ok(TListIdentifier::new(element_type, size as usize))
+        let size = checked_container_size(size, None)?;
+        Ok(TListIdentifier::new(element_type, size))
     }
 
     #[inline]
@@ -942,7 +947,8 @@ where
             .await
             .and_then(|n| Ok(field_type_from_u8(n)?))?;
         let size = self.read_i32().await?;
-        Ok(TSetIdentifier::new(element_type, size as usize))
+        let size = checked_container_size(size, None)?;
+        Ok(TSetIdentifier::new(element_type, size))
     }
 
     #[inline]
@@ -961,7 +967,8 @@ where
             .await
             .and_then(|n| Ok(field_type_from_u8(n)?))?;
         let size = self.read_i32().await?;
-        Ok(TMapIdentifier::new(key_type, value_type, size as usize))
+        let size = checked_container_size(size, None)?;
+        Ok(TMapIdentifier::new(key_type, value_type, size))
     }
 
     #[inline]
